@@ -34,7 +34,7 @@ from deep import logging
 from deep.api.tracepoint import Variable, VariableId
 from deep.processor.bfs import ParentNode, Node, NodeValue, breadth_first_search
 from deep.processor.variable_processor import process_variable, \
-    process_child_nodes, Collector, safe_str, type_name, VariableResponse
+    process_child_nodes, Collector, safe_str, type_name, VariableResponse, truncate_string
 
 
 class VariableCacheProvider:
@@ -168,21 +168,26 @@ class VariableSetProcessor(Collector):
         self.__var_lookup = var_lookup
         self.__var_cache = var_cache
         self.__config = config
+        self.__identifiers_of = None
 
-    def process_variable(self, name: str, value: any) -> Tuple[VariableId, str]:
+    def process_variable(self, name: str, value: any, names_are_identifiers: bool = False) -> Tuple[VariableId, str]:
         """
         Process a variable name and value.
 
         :param name: the variable name
         :param value: the variable value
+        :param names_are_identifiers: the value is the mapping of the variables of a frame: its keys are names of the
+                                      source, not data
         :return:
         """
+        if names_are_identifiers:
+            self.__identifiers_of = value
         identity_hash_id = str(id(value))
         self.__var_cache.pin(value)
         check_id = self.__var_cache.check_id(identity_hash_id)
         if check_id is not None:
             # this means the watch result is already in the var_lookup
-            return VariableId(check_id, name), safe_str(value)
+            return VariableId(check_id, name), self.__text_of(value)
 
         # else this is an unknown value so process breadth first
         var_ids = []
@@ -194,7 +199,7 @@ class VariableSetProcessor(Collector):
 
         var_id = self.__var_cache.check_id(identity_hash_id)
 
-        return VariableId(var_id, name), safe_str(value)
+        return VariableId(var_id, name), self.__text_of(value)
 
     def search_function(self, node: Node) -> bool:
         """
@@ -242,6 +247,21 @@ class VariableSetProcessor(Collector):
                 child_nodes = []
             node.add_children(child_nodes)
         return True
+
+    def max_name_length(self, value) -> Optional[int]:
+        """
+        Get the most characters the names of the children of a dictionary can have.
+
+        :param value: the dictionary
+        :return: the string limit; None for the mapping of a frame's variables
+        """
+        if value is self.__identifiers_of:
+            return None
+        return self.max_string_length
+
+    def __text_of(self, value) -> str:
+        # the text that stands for the value in a log message: data of the program, held to the string limit too
+        return truncate_string(safe_str(value), max(self.max_string_length, 0))[0]
 
     def __placeholder(self, node_value: NodeValue) -> VariableResponse:
         identity_hash_id = str(id(node_value.value))
